@@ -133,9 +133,9 @@ Definition D (s : N) (t : Z) : dutyv := (s, t).
 Definition V (tu b : N) : option cvalue := Some (tu, b).
 Definition DT (tu b : N) (r : option N) : N * N * option N := (tu, b, r).
 Definition HT (c h : N) : N * N := (c, h).
-Definition LH (id : nat) (e : cenv) (req : option cwire) (res : result) (dl : bool) (after : snapshot) : clabel :=
+Definition LH (id : N) (e : cenv) (req : option cwire) (res : result) (dl : bool) (after : snapshot) : clabel :=
   LHandle id e req res dl after.
-Definition LDr (d : dutyv) (ids : list nat) : clabel := LDrain N csig N N N d ids.
+Definition LDr (d : dutyv) (ids : list N) : clabel := LDrain N csig N N N d ids.
 Definition LDe (d : dutyv) : clabel := LDelete N csig N N N d.
 
 (* Go's Valid() tables against the model's *)
@@ -167,12 +167,12 @@ Module Ex.
   Definition rc2' : cpart := P (C 4 (Some d0) 2 3 hz 1 h2 0) (p_sig rc2).
   Definition bad : cwire := W (Some main) [Some rc1; Some rc2'; Some rc3; Some pp2] (w_values good).
   Definition trace : list clabel :=
-    [ LH 0 e0 (Some good) Accept true [(d0, [0])];
-      LH 1 e0 (Some bad) (Reject (RJust PSig)) false [(d0, [0])];
-      LH 2 (mkenv [10; 11; 12; 13]%N GAll [(d0, Expired)] None) (Some good) (Reject RDeadline) true [(d0, [0])];
-      LH 3 e0 (Some good) Accept true [(d0, [0; 3])];
-      LDr d0 [0];
-      LH 4 e0 None (Reject (RMain PInvalid)) false [(d0, [3])];
+    [ LH 0 e0 (Some good) Accept true [(d0, [0]%N)];
+      LH 1 e0 (Some bad) (Reject (RJust PSig)) false [(d0, [0]%N)];
+      LH 2 (mkenv [10; 11; 12; 13]%N GAll [(d0, Expired)] None) (Some good) (Reject RDeadline) true [(d0, [0]%N)];
+      LH 3 e0 (Some good) Accept true [(d0, [0; 3]%N)];
+      LDr d0 [0]%N;
+      LH 4 e0 None (Reject (RMain PInvalid)) false [(d0, [3]%N)];
       LDe d0;
       LH 5 (mkenv [10; 11; 12; 13]%N GAll [] (Some 2)) (Some good) (Reject RCtxJust) false [] ].
 
@@ -237,7 +237,7 @@ Module F11.
   Proof.
     split; [|vm_compute; auto].
     intros Cl.
-    destruct (Cl e0 [] 0 w_good 0 1%N 9%N 100%N eq_refl) as (r & dl & st' & X).
+    destruct (Cl e0 [] 0%N w_good 0 1%N 9%N 100%N eq_refl) as (r & dl & st' & X).
     - discriminate.
     - vm_compute. eexists; eexists; reflexivity.
     - reflexivity.
